@@ -10,7 +10,7 @@ import (
 // C02: conditions branch on the value of the written boolean expression.
 
 type C02Case struct {
-	Ctx  int    `json:"ctx"` // 0 if/else, 1 elif, 2 while+break, 3 do-while, 4 while (loop)
+	Ctx  int    `json:"ctx"` // 0 if/else, 1 elif, 2 while+break, 3 do-while, 4 while (loop), 5-7 if / do-while / while as the script's last statement
 	Expr *Expr  `json:"expr"`
 	Seed uint64 `json:"seed"`
 }
@@ -32,10 +32,20 @@ func c02File(c *C02Case) *File {
 		body = []*Stmt{{K: "while", While: &While{Cond: c.Expr, Body: &Block{Stmts: []*Stmt{yes, sBreak()}}}}, no}
 	case 3:
 		body = []*Stmt{{K: "dowhile", Do: &DoWh{Cond: c.Expr, Body: &Block{Stmts: []*Stmt{yes}}}}, no}
-	default:
+	case 4:
 		body = []*Stmt{{K: "while", While: &While{Cond: c.Expr, Body: &Block{Stmts: []*Stmt{yes}}}}, no}
+	case 5: // the condition is the last thing of the script: the false branch leaves the script
+		body = []*Stmt{{K: "if", If: &If{Arms: []*Arm{{Cond: c.Expr, Body: &Block{Stmts: []*Stmt{yes}}}}}}}
+	case 6:
+		body = []*Stmt{{K: "dowhile", Do: &DoWh{Cond: c.Expr, Body: &Block{Stmts: []*Stmt{yes}}}}}
+	default:
+		body = []*Stmt{{K: "while", While: &While{Cond: c.Expr, Body: &Block{Stmts: []*Stmt{yes}}}}}
 	}
-	return &File{Tops: []*Top{{K: "script", Script: &Script{Name: "S", Body: &Block{Stmts: body}}}}}
+	f := &File{Tops: []*Top{{K: "script", Script: &Script{Name: "S", Body: &Block{Stmts: body}}}}}
+	if c.Ctx >= 5 {
+		f.Tops = append(f.Tops, &Top{K: "script", Script: &Script{Name: "T", Body: &Block{Stmts: []*Stmt{sCmd(&Cmd{Name: "other"})}}}})
+	}
+	return f
 }
 
 func c02Src(c *C02Case) string { return Canon(c02File(c)) }
@@ -68,8 +78,23 @@ func c02Expected(ctx int, value bool) string {
 		if value {
 			o = loop
 		}
-	default:
+	case 4:
 		o = Outcome{Trace: []string{"no"}, Finish: "Return"}
+		if value {
+			o = loop
+		}
+	case 5:
+		o = Outcome{Finish: "Return"}
+		if value {
+			o.Trace = []string{"yes"}
+		}
+	case 6:
+		o = Outcome{Trace: []string{"yes"}, Finish: "Return"}
+		if value {
+			o = loop
+		}
+	default:
+		o = Outcome{Finish: "Return"}
 		if value {
 			o = loop
 		}
@@ -370,7 +395,7 @@ func genC02(t *rapid.T) *C02Case {
 	n := rapid.IntRange(1, pick(8, 12)).Draw(t, "nleaves")
 	next := 0
 	return &C02Case{
-		Ctx:  rapid.IntRange(0, 4).Draw(t, "ctx"),
+		Ctx:  rapid.IntRange(0, 7).Draw(t, "ctx"),
 		Expr: c02Expr(t, n, &next),
 		Seed: rapid.Uint64().Draw(t, "seed"),
 	}
@@ -380,7 +405,7 @@ func init() {
 	register("C02", "TestC02_Truth", checkC02, c02Src)
 }
 
-const c02Rule = "a condition E (random tree of 1-8 leaves, thorough 12, over && || ! and redundant parentheses; every leaf form: flag/defeated bare, negated, ==/!= TRUE/FALSE; var bare, negated, six operators, value(); literal, hex, negative, symbolic, var-id-range and multi-token values; multi-token operands) placed in if/else, elif, while, do-while; every leaf reads its own flag/var/trainer; for EVERY truth assignment to the leaves (2^n, 256 sampled above n=8) a scripted world realises it (vars below/at/above the comparison value) and the assembly run must equal the reference run, optimize off and on; plus exhaustive enumeration of all trees up to 3 leaves (thorough 4). non-trivial = >=3 leaves mixing && and ||, or a negated group, or a redundant parenthesis right after &&; distinct by source text"
+const c02Rule = "a condition E (random tree of 1-8 leaves, thorough 12, over && || ! and redundant parentheses; every leaf form: flag/defeated bare, negated, ==/!= TRUE/FALSE; var bare, negated, six operators, value(); literal, hex, negative, symbolic, var-id-range and multi-token values; multi-token operands) placed in if/else, elif, while, do-while, also as the last statement of a script that is followed by another script; every leaf reads its own flag/var/trainer; for EVERY truth assignment to the leaves (2^n, 256 sampled above n=8) a scripted world realises it (vars below/at/above the comparison value) and the assembly run must equal the reference run, optimize off and on; plus exhaustive enumeration of all trees up to 3 leaves (thorough 4). non-trivial = >=3 leaves mixing && and ||, or a negated group, or a redundant parenthesis right after &&; distinct by source text"
 
 func TestC02_Regress(t *testing.T) { runRegress(t, "C02") }
 
@@ -469,7 +494,7 @@ func TestC02_Enum(t *testing.T) {
 				return
 			}
 			count++
-			c := &C02Case{Ctx: idx % 5, Expr: e, Seed: uint64(idx)}
+			c := &C02Case{Ctx: idx % 8, Expr: e, Seed: uint64(idx)}
 			// the enumerated trees share sub-trees; checkC02 does not mutate them
 			if !runCase(t, "C02", "TestC02_Truth", c, checkC02, c02Src) {
 				t.Fail()
